@@ -64,7 +64,7 @@ def joinToks (sep : String) : List (List Tok) → List Tok
   | x :: rest => x ++ [.s sep] ++ joinToks sep rest
 
 mutual
-def render (d : RDialect) : Sql → List Tok
+partial def render (d : RDialect) : Sql → List Tok
   | .column n => [.s (quoteName d "e" ++ "." ++ quoteName d n)]
   | .value v => [.s (renderLit d v)]
   | .param n => [.p n]
@@ -98,10 +98,10 @@ def render (d : RDialect) : Sql → List Tok
       render d a ++ [.s (if ng then " NOT LIKE " else " LIKE "), .s (quoteStr d pat)] ++ (if esc then [.s " ESCAPE ", .s (quoteStr d "!")] else [])
   | .case c t e => [.s "case"] ++ renderCase d (.case c t e) ++ [.s " end"]
 /-- `SQLBuilder.CASE` merges a CASE in the else branch into the outer one -/
-def renderCase (d : RDialect) : Sql → List Tok
+partial def renderCase (d : RDialect) : Sql → List Tok
   | .case c t e => [.s " when "] ++ render d c ++ [.s " then "] ++ render d t ++ renderCase d e
   | x => [.s " else "] ++ render d x
-def renderList (d : RDialect) : SqlList → List (List Tok)
+partial def renderList (d : RDialect) : SqlList → List (List Tok)
   | .nil => []
   | .cons h t => render d h :: renderList d t
 end
